@@ -312,6 +312,7 @@ type sim struct {
 	stallD        time.Duration
 	quanta        int
 	digest        [32]byte
+	chains        map[string][32]byte
 	cancelled     map[chan struct{}]bool
 	maxLive       int
 }
@@ -597,7 +598,17 @@ func (s *sim) processEvents() {
 		if e.req != nil {
 			rid = e.req.id
 		}
-		s.digest = sha256.Sum256([]byte(fmt.Sprintf("%x|%d|%s|%d|%v|%v|%v", s.digest, e.kind, e.addr, rid, e.at, e.list, e.fin)))
+		// Detailed history digest: one hash chain per source (the
+		// dispatcher goroutine; each peer address for what its workers
+		// do), because the interleaving of different goroutines within
+		// one quiescent step is not part of the observable behaviour.
+		if e.kind != evSubscribe && e.kind != evUnsubscribe {
+			src := "dispatcher"
+			if e.kind == evOffer || e.kind == evHandle {
+				src = e.addr
+			}
+			s.chains[src] = sha256.Sum256([]byte(fmt.Sprintf("%x|%d|%s|%d|%v|%v|%v", s.chains[src], e.kind, e.addr, rid, e.at, e.list, e.fin)))
+		}
 		switch e.kind {
 		case evOffer:
 			r, b := e.req, e.req.batch
@@ -711,6 +722,7 @@ func (s *sim) processEvents() {
 				}
 			}
 		case evOrder:
+			rc.Logf("  [%v] free peers ranked %v scores %v", e.at, e.list, e.score)
 			if !e.perm {
 				rc.Failf("rank-order-corrupt", s.facts(), "ranking returned %v, not a permutation of its input", e.list)
 			}
@@ -1047,6 +1059,23 @@ func (s *sim) settle(what string) {
 	s.digest = sha256.Sum256([]byte(fmt.Sprintf("%x|%s|%d|%d|%v|%d", s.digest, what, s.offersTotal, s.evDone, s.now(), nv)))
 }
 
+// finalDigest combines the per-step chain with the per-source event chains.
+func (s *sim) finalDigest() string {
+	keys := make([]string, 0, len(s.chains))
+	for k := range s.chains {
+		keys = append(keys, k)
+	}
+	sort.Strings(keys)
+	h := sha256.New()
+	h.Write(s.digest[:])
+	for _, k := range keys {
+		c := s.chains[k]
+		h.Write([]byte(k))
+		h.Write(c[:])
+	}
+	return fmt.Sprintf("%x", h.Sum(nil)[:8])
+}
+
 // checkTimers holds the two timeout outcomes against the clock. The idle
 // timeout is documented to cancel its batch in real time: at quiescence no
 // live batch may be past the end of its idle window. The hard timeout is only
@@ -1106,7 +1135,7 @@ func runC12(rc *core.RunCtx) {
 	s := &sim{rc: rc, tp: tp, start: time.Now(),
 		score: map[string]int{}, tie: map[string]int{}, byAddr: map[string]*simPeer{},
 		lastOrder: map[string]*event{}, rewards: map[string]int{}, expRewards: map[string]int{},
-		failRec: map[string][]*event{}, pendingReward: map[string]*simBatch{}, cancelled: map[chan struct{}]bool{},
+		failRec: map[string][]*event{}, pendingReward: map[string]*simBatch{}, chains: map[string][32]byte{}, cancelled: map[chan struct{}]bool{},
 		peerCh: make(chan query.Peer, 256)}
 	cfg := &query.Config{
 		ConnectedPeers: func() (<-chan query.Peer, func(), error) {
@@ -1479,5 +1508,5 @@ func runC12(rc *core.RunCtx) {
 	rc.Res.Nontrivial = len(s.batches) >= 2 && s.offersTotal >= 1 && nVerd >= 1
 	rc.Res.Sample = map[string]any{"batches": len(s.batches), "requests": len(s.reqs), "peers": len(s.peers),
 		"offers": s.offersTotal, "reissues": s.reissues, "max_in_flight": s.maxLive, "stopped_mid_run": !s.finalRan,
-		"sim_seconds": int(s.now() / time.Second), "digest": fmt.Sprintf("%x", s.digest[:8])}
+		"sim_seconds": int(s.now() / time.Second), "digest": s.finalDigest()}
 }
